@@ -256,6 +256,11 @@ func RandTxParam(rng *rand.Rand, toChain uint64) *TxParam {
 		Method: []string{"unlock", "transfer", "x"}[rng.Intn(3)], Args: rb(rng.Intn(300))}
 }
 
+// CommitRaw stores an arbitrary 32-byte value at slot of the contract account.
+func (s *State) CommitRaw(contract Addr, slot Hash, value Hash) {
+	s.Accounts[contract].Storage[slot] = append([]byte{}, value[:]...)
+}
+
 // Commit stores keccak256(message) at slot of the contract account, as the source chain's
 // cross-chain manager contract does.
 func (s *State) Commit(contract Addr, slot Hash, message []byte) {
